@@ -348,7 +348,17 @@ func renderSweep() {
 		col, row int
 		w, h     uint16
 	}
-	specs := []childSpec{{0, 0, 2, 2}, {1, 1, 2, 2}, {3, 2, 2, 2}, {-1, -1, 2, 2}, {1, 0, 4, 1}, {0, 1, 1, 1}}
+	specs := []childSpec{{0, 0, 2, 2}, {1, 1, 2, 2}, {3, 2, 2, 2}, {-1, -1, 2, 2}, {1, 0, 4, 1}, {0, 1, 1, 1}, {3, 1, 2, 2}, {2, 0, 3, 3}}
+	// every cell of a child has its own glyph: a child painted with the wrong stride or origin shows
+	glyph := func(i, xx, yy int) string { return string(rune(0x41 + i*16 + yy*4 + xx)) }
+	gglyph := func(xx, yy int) string { return string(rune('0' + yy*2 + xx)) }
+	fillChild := func(s *vxfw.Surface, w, h int, f func(xx, yy int) string) {
+		for yy := 0; yy < h; yy++ {
+			for xx := 0; xx < w; xx++ {
+				s.Buffer[yy*w+xx] = vaxis.Cell{Character: vaxis.Character{Grapheme: f(xx, yy), Width: 1}}
+			}
+		}
+	}
 	zs := [][]int{{0, 0, 0}, {0, 1, 2}, {2, 1, 0}, {1, 0, 2}, {5, 5, 1}}
 	var cur func() vxfw.Surface
 	root.surf = func() vxfw.Surface { return cur() }
@@ -370,10 +380,14 @@ func renderSweep() {
 					cur = func() vxfw.Surface {
 						s := filled(W, H, ".", root)
 						for i, p := range picked {
-							ch := filled(p.w, p.h, string(rune('A'+i)), &dummy{})
+							ch := filled(p.w, p.h, "?", &dummy{})
+							ii := i
+							fillChild(&ch, int(p.w), int(p.h), func(xx, yy int) string { return glyph(ii, xx, yy) })
 							// a grandchild to exercise nested clipping
 							if i == 0 {
-								ch.AddChild(1, 1, filled(2, 2, "g", &dummy{}))
+								gc := filled(2, 2, "?", &dummy{})
+								fillChild(&gc, 2, 2, gglyph)
+								ch.AddChild(1, 1, gc)
 							}
 							ss := vxfw.NewSubSurface(p.col, p.row, ch)
 							ss.ZIndex = z[i]
@@ -400,9 +414,9 @@ func renderSweep() {
 								if X < 0 || Y < 0 || X >= W || Y >= H {
 									continue
 								}
-								g := string(rune('A' + i))
-								if i == 0 && xx >= 1 && yy >= 1 {
-									g = "g" // grandchild 2x2 at (1,1) clipped to the 2x2 child: only (1,1)
+								g := glyph(i, xx, yy)
+								if i == 0 && xx >= 1 && yy >= 1 && xx-1 < 2 && yy-1 < 2 {
+									g = gglyph(xx-1, yy-1) // grandchild 2x2 at (1,1), clipped to the child
 								}
 								want[Y][X] = g
 							}
